@@ -269,3 +269,88 @@ class ListPatterns(Harness):
                         return {"observed": {"pattern": pat, "name": name, "server_matches": got, "rfc_matches": want, "regex": rx.pattern},
                                 "clause": "LIST and LSUB wildcards match exactly the names RFC 3501 says"}
         return None
+
+
+class RenameThenCreate(Harness):
+    """C17 (c) 'RENAME ... leaves nothing under the old name': a mailbox created again under the old name is a new, empty mailbox,
+    listed next to the renamed one, and the renamed one keeps its messages.  Also RENAME INBOX with gaps in the MH keys: flags stay
+    with their messages."""
+
+    scope = "CREATE old (1-2 messages appended), RENAME old new, CREATE old again, LIST, SELECT both; for 4 name pairs incl. a nested one; RENAME INBOX x after an EXPUNGE of a middle message with 3 different flag layouts"
+    exhaustive = False
+
+    def inputs(self, tier, seed):
+        for old, new in (("proj", "archive"), ("proj", "deep/archive"), ("a/b", "a/c"), ("x", "y")):
+            yield {"kind": "recreate", "old": old, "new": new}
+        for flags in (["\\Flagged", "", "\\Answered"], ["", "\\Deleted \\Seen", ""], ["kw1", "\\Flagged kw2", "\\Draft"]):
+            yield {"kind": "inbox", "flags": flags}
+
+    def check(self, inp):
+        msg = "Subject: s%d\r\n\r\nbody\r\n"
+
+        async def subjects(s, name):
+            sel = await s.cmd(f"SELECT {name}")
+            if " OK " not in sel[-1]:
+                return None
+            out = {}
+            for ln in await s.cmd("UID FETCH 1:* (FLAGS BODY.PEEK[HEADER.FIELDS (SUBJECT)])"):
+                m = re.search(r"UID (\d+)", ln)
+                sj = re.search(r"Subject: ([^\r\n]+)", ln)
+                fl = re.search(r"FLAGS \(([^)]*)\)", ln)
+                if m and sj:
+                    out[sj.group(1)] = sorted(set((fl.group(1) if fl else "").split()) - {"\\Recent"})
+            return out
+
+        async def go():
+            async with World({"inbox": 5}) as w:
+                a = w.session("a")
+                if inp["kind"] == "recreate":
+                    old, new = inp["old"], inp["new"]
+                    for part in (old, new):
+                        if "/" in part:
+                            await a.cmd(f"CREATE {part.rsplit('/', 1)[0]}")
+                    await a.cmd(f"CREATE {old}")
+                    for i in (1, 2):
+                        t = msg % i
+                        await a.cmd(f"APPEND {old} {{{len(t)}}}\r\n{t}")
+                    r = await a.cmd(f"RENAME {old} {new}")
+                    if " OK " not in r[-1]:
+                        return None  # refused: nothing to check here
+                    c = await a.cmd(f"CREATE {old}")
+                    lst = [l for l in await a.cmd('LIST "" *') if l.startswith("* LIST")]
+                    names = [re.search(r'"/" "?([^"\r]+)"?', l).group(1) for l in lst]
+                    got_old, got_new = await subjects(a, old), await subjects(a, new)
+                    bad = []
+                    if " OK " not in c[-1]:
+                        bad.append(f"CREATE {old} after the rename refused: {c[-1].strip()}")
+                    if names.count(old) != 1 or names.count(new) != 1:
+                        bad.append(f"LIST has {old!r} x{names.count(old)} and {new!r} x{names.count(new)}: {sorted(names)}")
+                    if got_old != {}:
+                        bad.append(f"the mailbox created again under the old name holds {got_old}")
+                    if got_new is None or sorted(got_new) != ["s1", "s2"]:
+                        bad.append(f"the renamed mailbox holds {got_new}")
+                    return bad or None
+                # RENAME INBOX with a gap in the MH keys
+                await a.cmd("SELECT inbox")
+                await a.cmd("STORE 2 +FLAGS (\\Deleted)")
+                await a.cmd("EXPUNGE")
+                for pos, fl in zip((2, 3, 4), inp["flags"]):
+                    if fl:
+                        await a.cmd(f"STORE {pos} +FLAGS ({fl})")
+                before = await subjects(a, "inbox")
+                r = await a.cmd("RENAME inbox moved")
+                if " OK " not in r[-1]:
+                    return [f"RENAME inbox refused: {r[-1].strip()}"]
+                after = await subjects(a, "moved")
+                left = await subjects(a, "inbox")
+                bad = []
+                if after != before:
+                    bad.append(f"flags per message before {before} != after {after}")
+                if left:
+                    bad.append(f"messages left in the inbox: {left}")
+                return bad or None
+
+        bad = run(go(), timeout=90)
+        if bad:
+            return {"observed": bad, "clause": "RENAME leaves nothing under the old name and keeps every message and flag"}
+        return None
